@@ -124,7 +124,8 @@ def shape_for(d, v):
         kind = "deque" if d.get("seq") == "deque" else "array"
         return {"c": kind, "item": "untyped" if k == "seqAny" else shape_for(d["item"], first())}
     if k in ("setAny", "setOf"):
-        return {"c": "set", "item": "untyped" if k == "setAny" else shape_for(d["item"], first())}
+        return {"c": "immSet" if d.get("imm") else "set",
+                "item": "untyped" if k == "setAny" else shape_for(d["item"], first())}
     if k == "tupleOf":
         return {"c": "tuple", "item": shape_for(d["item"], first())}
     if k in ("mapAny", "mapOf"):
@@ -137,56 +138,83 @@ def shape_for(d, v):
         return {"k": kind, "fields": fields}
     if k == "struct":
         return struct_shape(d, v, "inline" if d.get("inline") else "struct")
-    if k in ("anyOf", "oneOf", "allOf", "notF"):
+    if k == "notF":
+        return {"w": "notF", "inner": "untyped"}      # whatever a NotField lets through has no declared type
+    if k in ("anyOf", "oneOf", "allOf"):
         opts = [x for x in d["fields"] if type_ok(x, v)] or d["fields"]
         return {"w": k, "inner": shape_for(opts[0], v)}
     raise ValueError(f"shape_for: {k}")
 
 
-def struct_shape(d, v, kind):
+def struct_shape(d, v, kind, result=None):
+    """`result` (optional): the structure the operation built from v — undeclared keys it dropped are no site"""
     names = [n for n, _ in d["fields"]]
-    fields = [[n, shape_for(fd, _lookup(v, n))] for n, fd in d["fields"]]
-    fields += [[x, "untyped"] for x in _keys(v) if x not in names]
+    fields = []
+    for n, fd in d["fields"]:
+        sub = _lookup(v, n)
+        if result is not None and fd["k"] == "struct" and isinstance(result.__dict__.get(n), Structure):
+            fields.append([n, struct_shape(fd, sub, "inline" if fd.get("inline") else "struct", result.__dict__[n])])
+        else:
+            fields.append([n, shape_for(fd, sub)])
+    kept = None if result is None else set(result.__dict__)
+    fields += [[x, "untyped"] for x in _keys(v) if x not in names and (kept is None or x in kept)]
     return {"k": kind, "fields": fields}
 
 
 def site_chain(shape, path):
-    """[(kind, cat)] of the table sites on the way from the root of `shape` to the node at `path`"""
+    """[(depth, kind, cat)] of the table sites on the way from the root of `shape` to the node at `path`
+    (depth = number of path steps consumed before the site; a wrapper and its option share a depth)"""
     chain = []
     s = shape
     path = list(path)
+    depth = 0
     while True:
         if s in ("any", "untyped"):
-            chain.append(("any", "none"))
+            chain.append((depth, "any", "none"))
             return chain
         if "s" in s:
             return chain
         if "w" in s:
-            chain.append((s["w"], shape_cat(s["inner"])))
+            chain.append((depth, s["w"], shape_cat(s["inner"])))
             s = s["inner"]
             continue
         if "c" in s:
-            chain.append((s["c"], shape_cat(s["item"])))
+            chain.append((depth, s["c"], shape_cat(s["item"])))
             if not path:
                 return chain
             path.pop(0)
+            depth += 1
             s = s["item"]
             continue
-        chain.append((s["k"], "none"))
+        chain.append((depth, s["k"], "none"))
         if not path:
             return chain
         key = path.pop(0)
+        depth += 1
         nxt = [fs for n, fs in s["fields"] if n == key]
         if not nxt:
             return chain
         s = nxt[0]
 
 
+def responsible_site(shape, path, modes):
+    """the table site to blame for aliasing of the node at `path`: among the sites sitting at that node (a
+    chain of wrappers and the option inside) the first one the table says aliases; the node's own site otherwise"""
+    chain = site_chain(shape, path)
+    if not chain:
+        return None, chain
+    at_node = [c for c in chain if c[0] == len(path)] or [chain[-1]]
+    for _, k, c in at_node:
+        if modes.get((k, c)) in ("alias", "shallow"):
+            return (k, c), chain
+    return (at_node[-1][1], at_node[-1][2]), chain
+
+
 def site_in_scope(op, kind):
     """mirror of `inScope` (Props/C19.lean): the retained-input half of the statement speaks about typed
     fields given plain data; untyped content and Structure instances passed by reference are shared by design"""
     if op in ("construct", "setattr", "deserialize"):
-        if kind == "any":
+        if kind in ("any", "notF"):
             return False
         if kind == "struct" and op != "deserialize":
             return False
@@ -347,10 +375,11 @@ def situation(case):
                 new = Partial[cls]
             else:
                 new = AllFieldsRequired[cls]
-            # the caller can afterwards reach the argument list and the derived class's own lists
-            return cls_state(new), {"names": names, "derived": cls_state(new)}, \
-                lambda: cls_fp(cls) + "|" + json.dumps(AP.deep_canon(cls_state(new)), sort_keys=True, default=str) \
-                if False else cls_fp(cls)
+            # the caller can afterwards reach the argument list and the derived class's own lists (the Field
+            # objects themselves are shared between the two classes by design)
+            own = {"required": getattr(new, "_required", None), "mapper": getattr(new, "_serialization_mapper", None),
+                   "optional": getattr(new, "_optional", None)}
+            return own, {"names": names}, lambda: cls_fp(cls) + "|" + cls_fp(new)
         return Situation([state, names], state, shape, call)
 
     if op == "construct":
@@ -367,11 +396,15 @@ def situation(case):
     if op == "deserialize":
         doc = dump.load_value(case["doc"], ctx)
         shape = struct_shape(decl, doc, "root") if isinstance(doc, dict) else "any"
+        sit = Situation([doc], doc, shape, None)
 
         def call():
             x = Deserializer(cls).deserialize(doc, keep_undefined=case.get("keepUndefined", True))
+            if isinstance(doc, dict):
+                sit.shape = struct_shape(decl, doc, "root", x)
             return x, doc, lambda: inst_fp(x)
-        return Situation([doc], doc, shape, call)
+        sit.call = call
+        return sit
 
     # the remaining operations start from an existing instance
     if op in ("fastSerialize", "fieldSerialize"):
@@ -426,7 +459,7 @@ def run_impl(case):
         sit = situation(case)
     except Exception as e:
         return {"unbuildable": f"{type(e).__name__}: {e}"[:300]}
-    res = {"shape": sit.shape, "topKind": sit.top_kind}
+    res = {"topKind": sit.top_kind}
     before = json.dumps(AP.deep_canon(sit.args), sort_keys=True, default=str)
     cells, src = AP.heapify(sit.source)
     graph = AP.object_graph(sit.source)
@@ -446,6 +479,7 @@ def run_impl(case):
         sink = None
     after = json.dumps(AP.deep_canon(sit.args), sort_keys=True, default=str)
     res["args_same"] = before == after
+    res["shape"] = sit.shape
     if not res["ok"]:
         return res
     gk = AP.object_graph(sink)
@@ -511,16 +545,23 @@ def judge(case, impl, model):
     if model.get("argsSame") != impl.get("args_same"):
         msg = f"argument mutation: real args_same={impl.get('args_same')} model={model.get('argsSame')}"
     if impl.get("ok"):
+        modes = {(k.split(".")[-1], c.split(".")[-1]): m for k, c, m in model.get("modes", [])}
         if not model.get("ok"):
-            msg = msg or f"real {op} succeeded but the model says it raises at a site of {json.dumps(impl['shape'])[:200]}"
+            # a site whose witness raised is 'unknown' to the table: no prediction there
+            if "error" not in modes.values():
+                msg = msg or (f"real {op} succeeded but the model says it raises (a container where a scalar is "
+                              f"declared?) for {json.dumps(impl['shape'])[:200]}")
         elif sorted(model.get("shared", [])) != sorted(impl.get("shared", [])):
             msg = msg or (f"aliasing differs for {op}: real shares source cells {impl.get('shared')} "
                           f"(paths {impl.get('shared_paths')}), model predicts {model.get('shared')}")
-        # poke oracle -> findings keyed by the responsible table site
-        for path, label in impl.get("poked", []):
+        # poke oracle (and identity verdict) -> findings keyed by the responsible table site
+        hits = [(p, l) for p, l in impl.get("poked", [])]
+        poked_paths = [list(p) for p, _ in hits]
+        if op in INPUT_OPS or op in OUTPUT_OPS:
+            hits += [(p, "is-identity") for p in impl.get("shared_paths", [])
+                     if not any(list(p)[:n] in poked_paths for n in range(len(p) + 1))]
+        for path, label in hits:
             vis_path = list(path)
-            if op == "derive":
-                vis_path = vis_path[:1] if vis_path[:1] == ["names"] else ["required"]
             if op in ("toSchema",):
                 key = f"result-aliases-internal:{op}:schema"
                 fails.append((key, f"mutating the returned schema at {path} ({label}) changed the class"))
@@ -529,12 +570,16 @@ def judge(case, impl, model):
                 fails.append((f"result-aliases-arg:{op}", f"mutating the converted document at {path} ({label}) "
                               f"changed the input document or mapping"))
                 continue
-            chain = site_chain(impl["shape"], vis_path)
-            if not chain:
+            # blame the topmost aliased object on the way to the poked one
+            known_paths = [list(q) for q in impl.get("shared_paths", [])] + [list(q) for q, _ in impl.get("poked", [])]
+            prefixes = [vis_path[:n] for n in range(len(vis_path) + 1) if vis_path[:n] in known_paths]
+            blame_path = prefixes[0] if prefixes else vis_path
+            site, chain = responsible_site(impl["shape"], blame_path, modes)
+            if site is None:
                 continue
-            if not all(site_in_scope(op, k) for k, _ in chain):
+            if not all(site_in_scope(op, k) for _, k, _ in chain):
                 continue
-            kind, cat = chain[-1]
+            kind, cat = site
             pheno = "retained-arg" if op in INPUT_OPS else "result-aliases-internal"
             fails.append((f"{pheno}:{op}:{kind}:{cat}",
                           f"{op}: {label} on the object at {path} of the "
@@ -675,6 +720,7 @@ COLL_WITNESS = {
     "array": lambda it: ({"k": "seqOf", "item": it[0]}, {"l": [it[1]]}, {"l": [it[2]]}),
     "deque": lambda it: ({"k": "seqOf", "item": it[0], "seq": "deque"}, {"q": [it[1]]}, {"l": [it[2]]}),
     "set": lambda it: ({"k": "setOf", "item": it[0]}, {"s": [it[1]]}, {"l": [it[2]]}),
+    "immSet": lambda it: ({"k": "setOf", "item": it[0], "imm": True}, {"s": [it[1]]}, {"l": [it[2]]}),
     "tuple": lambda it: ({"k": "tupleOf", "item": it[0]}, {"t": [it[1]]}, {"l": [it[2]]}),
     "map": lambda it: ({"k": "mapOf", "key": STR, "val": it[0]}, {"m": [["k", it[1]]]}, {"m": [["k", it[2]]]}),
 }
@@ -682,6 +728,7 @@ UNTYPED_WITNESS = {
     "array": ({"k": "seqAny"}, {"l": [1, {"l": [2]}]}, {"l": [1, {"l": [2]}]}),
     "deque": ({"k": "seqAny", "seq": "deque"}, {"q": [1, {"l": [2]}]}, {"l": [1, {"l": [2]}]}),
     "set": ({"k": "setAny"}, {"s": [1, 2]}, {"l": [1, 2]}),
+    "immSet": ({"k": "setAny", "imm": True}, {"s": [1, 2]}, {"l": [1, 2]}),
     "map": ({"k": "mapAny"}, {"m": [["k", {"l": [1]}]]}, {"m": [["k", {"l": [1]}]]}),
 }
 POS_WITNESS = {
@@ -704,20 +751,23 @@ def witness(kind, cat):
     if kind in COLL_WITNESS:
         if cat == "untyped":
             return UNTYPED_WITNESS.get(kind)
-        if kind == "set" and cat not in HASHABLE_CATS:
+        if kind in ("set", "immSet") and cat == "coll":
+            tp = {"k": "tuplePos", "items": [INT, INT]}
+            return COLL_WITNESS[kind]((tp, {"t": [1, 2]}, {"l": [1, 2]}))
+        if kind in ("set", "immSet") and cat not in HASHABLE_CATS:
             return None
         if cat not in ("number", "string", "scalar", "any", "coll", "struct", "inline", "wrap"):
             return None
         return COLL_WITNESS[kind](item_witness(cat))
-    if kind in ("anyOf", "oneOf", "allOf", "notF"):
+    if kind == "notF":
+        if cat != "untyped":
+            return None
+        d, v, doc = item_witness("any")
+        return {"k": "notF", "fields": [STR]}, v, doc
+    if kind in ("anyOf", "oneOf", "allOf"):
         if cat in ("untyped", "none"):
             return None
         d, v, doc = item_witness(cat)
-        if kind == "notF":
-            if cat == "struct":
-                return None
-            other = STR if cat != "string" else INT
-            return {"k": "notF", "fields": [other]}, v, doc
         if kind == "allOf":
             return {"k": "allOf", "fields": [d]}, v, doc
         other = STR if cat not in ("string",) else INT
@@ -727,7 +777,7 @@ def witness(kind, cat):
     return None
 
 
-COLL_KINDS = ["array", "deque", "set", "tuple", "map"]
+COLL_KINDS = ["array", "deque", "set", "immSet", "tuple", "map"]
 COLL_CATS = ["number", "string", "scalar", "any", "untyped", "coll", "struct", "inline", "wrap"]
 WRAP_KINDS = ["anyOf", "oneOf", "allOf", "notF"]
 WRAP_CATS = ["number", "string", "scalar", "any", "coll", "struct", "inline", "wrap"]
@@ -737,7 +787,7 @@ def field_sites():
     sites = [("any", "none"), ("struct", "none"), ("inline", "none"), ("arrayPos", "none"), ("dequePos", "none"),
              ("tuplePos", "none")]
     sites += [(k, c) for k in COLL_KINDS for c in COLL_CATS]
-    sites += [(k, c) for k in WRAP_KINDS for c in WRAP_CATS]
+    sites += [(k, c) for k in WRAP_KINDS for c in WRAP_CATS + ["untyped"]]
     return [s for s in sites if witness(*s) is not None]
 
 
